@@ -7,6 +7,7 @@ source (queue capacities, where the slot is taken).
 -/
 import WtVerif.Driver.Ops4
 import WtVerif.Driver.Handoff
+import WtVerif.Driver.WorkerLoop
 import WtVerif.Driver.StreamMap
 import WtVerif.Tls
 
@@ -62,12 +63,19 @@ def handle5 (op : String) (a obs : List String) : Option Verdict :=
       | [x] => if delivered.contains x then "true" else "false"
       | _ => "-"
     let same := s!"{got}/3"
-    let model := [if uni then s!"uni={same}" else "uni=3/3", if uni then "bi=3/3" else s!"bi={same}", "dgram=true",
-      "close=app:0:-", s!"extra={extraGot}"]
+    -- datagrams the application never asks for: the worker loop model on the same schedule
+    let nd := (parseNat (get a 5)).getD 0
+    let loop := WorkerLoop.unreadDatagramsRun Generated.CAP_READY_DATAGRAMS Generated.WORKER_HANDLERS_AWAIT_FREE nd
+      (List.range seq.length)
+    let parked := nd > 0 && loop.parked.isSome
+    let model :=
+      if parked then ["uni=0/3", "bi=0/3", "dgram=false", "close=timeout", s!"extra={if extraGot == "-" then "-" else "false"}"]
+      else [if uni then s!"uni={same}" else "uni=3/3", if uni then "bi=3/3" else s!"bi={same}",
+        if nd > 0 then "dgram=false" else "dgram=true", "close=app:0:-", s!"extra={extraGot}"]
     let prop := check [("no_trap", !isTrap obs),
       ("healthy_streams_of_the_stalled_kind_delivered", field obs (if uni then "uni" else "bi") == "3/3"),
       ("streams_of_the_other_kind_delivered", field obs (if uni then "bi" else "uni") == "3/3"),
-      ("datagram_received", field obs "dgram" == "true"),
+      ("datagram_received", nd > 0 || field obs "dgram" == "true"),
       ("later_stream_delivered", field obs "extra" != "false"),
       ("session_closed_cleanly", field obs "close" == "app:0:-")]
     pure (model, prop)
